@@ -850,7 +850,8 @@ func (fc *FontConfigurationPango) splitFirstLine(hyphenCache map[HyphenDictKey]h
 		// Is it really OK to remove hyphenation for word-break ?
 		hyphenated = false
 		layout.SetText(string(text))
-		layout.Layout.SetWidth(pango.Unit(PangoUnitsFromFloat(maxWidthV)))
+		// a negative width would disable wrapping
+		layout.Layout.SetWidth(pango.Unit(PangoUnitsFromFloat(utils.MaxF(maxWidthV, 0))))
 		layout.Layout.SetWrap(pango.WRAP_CHAR)
 		var index int
 		firstLine, index = layout.GetFirstLine()
